@@ -168,6 +168,8 @@ class ExactDiag:
             if i == mpo.L - 1:
                 W = W.take_slice(mpo.get_IdR(mpo.L - 1), 'wR')
             full_H = npc.tensordot(full_H, W, axes=['wR', 'wL'])
+        if mpo.L == 1:
+            full_H = full_H.take_slice(mpo.get_IdR(0), 'wR')
         full_H = full_H.combine_legs(
             [self._labels_p, self._labels_pconj], new_axes=[0, 1], pipes=[self._pipe, self._pipe_conj]
         )
